@@ -1001,7 +1001,10 @@ class KmipEngine(object):
             if attribute_name == "Name":
                 attribute_list = managed_object.names
                 if attribute_value is not None:
-                    attribute_value = attribute_value.value
+                    if isinstance(attribute_value, attributes.Name):
+                        attribute_value = attribute_value.name_value.value
+                    else:
+                        attribute_value = attribute_value.value
             elif attribute_name == "Application Specific Information":
                 attribute_list = managed_object.app_specific_info
                 if attribute_value is not None:
